@@ -272,4 +272,13 @@ Require Import Model.C18_Surgery.
 
 
 def translate():
-    return '\n\n'.join([HEADER, translate_quad(), translate_tets(), translate_restrict(), translate_join()]) + '\n'
+    """(text of Gen/C18Gen.v, list of (part, error)); parts are translated independently"""
+    errors, parts = [], [HEADER]
+    for name, fn in (('mesh_quad_1.py: to_meshtri', translate_quad), ('mesh_hex_1.py / mesh_wedge_1.py: to_meshtet, refdom', translate_tets),
+                     ('mesh.py: _reix, restrict, remove_elements, remove_unused_nodes', translate_restrict),
+                     ('mesh.py: _remove_duplicate_nodes, __add__; mesh_quad_1.py: boundary carry-over', translate_join)):
+        try:
+            parts.append(fn())
+        except TranslateError as e:
+            errors.append((name, str(e)))
+    return '\n\n'.join(parts) + '\n', errors
